@@ -9,6 +9,7 @@ ASSUME = [
     "virtual time is exact; interleavings are explored at the granularity of the hook points (critical sections)",
     "TLC decides every recorded execution against spec/Client.tla (guards + logged outcomes) and evaluates the property invariants after every step",
     "fake net.PacketConn; the per-transaction buffer capacity is set through reflection (unexported field bufferCap)",
+    "C10 data-race clause: lock discipline on the validated traces plus free-running executions (hooks off, no shared harness state) under the Go race detector; a race report is a real-code observation",
 ]
 
 _RE_STEP = re.compile(r"^State \d+: <(\w+)(?:\(([^)]*)\))? line")
@@ -196,6 +197,22 @@ def client_check(work, tier, seed, replay, propid):
     else:
         viol, nstates, lines = validate_traces(work, out, procs=4 if quick else 8)
     stats = json.load(open(out + ".stats")) if os.path.exists(out + ".stats") else {}
+    if propid == "C10":
+        # the data-race clause: free-running callers / injector / Close with the hooks off, under the race detector
+        rounds = 80 if quick else 2000
+        rb = common.build_test(work, "./clientsim/", "sim.race", race=True)
+        rp = common.run([rb, "-test.run", "TestRace$", "-test.timeout", "30m"], cwd=work.dir, timeout=2400,
+                        env=dict(VH_RACE=str(rounds), VERIF_SEED=str(seed), GORACE="halt_on_error=1"))
+        stats["race_rounds"] = rounds
+        if "WARNING: DATA RACE" in rp.stdout:
+            at = rp.stdout.find("WARNING: DATA RACE")
+            viol.append(("the Go race detector reports a data race in a free-running execution: " + " ".join(rp.stdout[at:at + 900].split())[:700],
+                         [rp.stdout[at:at + 4000]]))
+        elif rp.returncode != 0:
+            why = crashed(rp)
+            if why is None:
+                raise Infra("race run failed:\n" + rp.stdout[-3000:])
+            viol.append((why, [rp.stdout[-4000:]]))
     distinct = len(set(json.dumps(json.loads(l)["ev"]) for l in lines))
     nontriv = len(set(json.dumps(json.loads(l)["ev"]) for l in lines if len(json.loads(l)["ev"]) >= 12))
     cov = dict(states=sum(r["distinct"] for r in mcs), transitions=sum(r["generated"] for r in mcs),
